@@ -795,6 +795,14 @@ class BaseDiscretizer(BaseEstimator, TransformerMixin):
                 # grouping discarded_value with kept_value
                 order.group(discarded_value, kept_value)
 
+                # quantitative features: a group is the interval up to its largest quantile
+                if (
+                    feature in self.quantitative_features
+                    and self.str_nan not in (discarded_value, kept_value)
+                    and discarded_value > kept_value
+                ):
+                    order.replace_group_leader(kept_value, discarded_value)
+
             # replacing group leader if requested
             elif mode == "replace":
                 # grouping kept_value with discarded_value
